@@ -279,6 +279,89 @@ def factories():
     return f
 
 
+def self_delimiting(name, encoding):
+    """machines whose wire format carries its own length (fixed size, size/length/count prefixed): parsing
+    a valid encoding followed by other bytes must leave those bytes alone (written from the wire formats)"""
+    base = name.split(":")[0]
+    if base in ("BOOL USINT SINT UINT INT WORD UDINT DWORD DINT ULINT LINT REAL LREAL UINT_network INT_network "
+                "UDINT_network DINT_network REAL_network IPADDR IPADDR_network SSTRING STRING IFACEADDRS EPATH "
+                "EPATH_padded EPATH_single route_path status CPF enip_header enip_machine send_data register "
+                "list_interfaces list_identity list_services legacy connection_ID octets octets_drop words").split():
+        return True
+    if base == "unconnected_send":      # only the Unconnected Send service itself (0x52) carries lengths
+        return encoding[:1] == b"\x52"
+    return False
+
+
+def u16(b, i):
+    return b[i] | (b[i + 1] << 8)
+
+
+def wire_valid(name, b):
+    """is `b` exactly one well-formed element of this kind?  Decided from the wire format alone (length /
+    count fields consistent with the content), without the library.  None = no validator for this kind."""
+    base = name.split(":")[0]
+
+    def cpf(b):
+        if len(b) < 2:
+            return False
+        p = 2
+        for _ in range(u16(b, 0)):
+            if p + 4 > len(b):
+                return False
+            p += 4 + u16(b, p + 2)
+        return p == len(b)
+
+    if base in ("CPF", "list_interfaces", "list_identity", "list_services", "legacy"):
+        return cpf(b)
+    if base == "send_data":
+        return len(b) >= 6 and cpf(b[6:])
+    if base == "enip_machine":
+        return len(b) >= 24 and u16(b, 2) == len(b) - 24
+    if base == "enip_header":
+        return len(b) == 24
+    if base == "register":
+        return len(b) == 4
+    if base == "connection_ID":
+        return len(b) == 4
+    if base == "unconnected_send":
+        if b[:1] != b"\x52" or len(b) < 2:
+            return False
+        p = 2 + 2 * b[1] + 2                 # service, path size (words), path, priority, timeout ticks
+        if p + 2 > len(b):
+            return False
+        p += 2 + u16(b, p)                   # message length, message
+        p += p % 2                           # pad to an even offset
+        if p + 2 > len(b):
+            return False
+        return p + 2 + 2 * b[p] == len(b)    # route path size (words), pad, route path
+    return None
+
+
+def cpf_encodings(rng):
+    """CPF lists assembled from the wire format (count, then type_id/length/data items), including item
+    types the library does not recognize"""
+    req = bytes([0x4c, 0x02, 0x20, 0x02, 0x24, 0x01, 0x01, 0x00])      # a small CIP request (any octets do)
+    items = [
+        (0x0000, b""),
+        (0x00b2, req),
+        (0x00a1, struct.pack("<I", 0x12345678)),
+        (0x00b1, struct.pack("<H", 7) + req),
+        (0x9999, b""),
+        (0x9999, b"\xaa\xbb"),
+        (0x0123, b"\x01\x02\x03"),
+    ]
+    out = []
+    combos = [[0], [0, 1], [2, 3], [5], [4], [0, 5], [5, 0], [6, 1], [1, 6], [0, 5, 1], []]
+    for combo in combos:
+        b = struct.pack("<H", len(combo))
+        for k in combo:
+            t, d = items[k]
+            b += struct.pack("<HH", t, len(d)) + d
+        out.append(b)
+    return out
+
+
 SHARED = ("Object.parser", "Message_Router.parser", "Connection_Manager.parser", "Logix.parser")
 
 
@@ -336,6 +419,10 @@ def produced(rng):
                 out.append(("typed_data:" + tname, parser.typed_data.produce(dd(data=vs[:k]), tag_type=cls.tag_type)))
             except Exception:
                 pass
+    for b in cpf_encodings(rng):
+        for name in ("CPF", "list_identity", "list_services", "list_interfaces", "legacy"):
+            out.append((name, b))
+        out.append(("send_data", struct.pack("<IH", 0, 5) + b))
     for r in (0, 1, 3, 5):
         out.append(("octets:%d" % r, bytes(range(10, 10 + r))))
         out.append(("octets_drop:%d" % r, bytes(range(10, 10 + r))))
